@@ -25,3 +25,7 @@ pub mod vx_axioms {
     pub broadcast axiom fn axiom_u8_array_eq_spec<const N: usize>(a: [u8; N], b: [u8; N]) ensures #[trigger] a.eq_spec(&b) == (a == b);
 }
 broadcast use vx_axioms::axiom_u8_array_eq_spec;
+
+// Option::is_none_or / is_some_and (std): decided through the closure's own contract
+pub assume_specification<T, F: FnOnce(T) -> bool> [Option::<T>::is_none_or] (o: Option<T>, f: F) -> (r: bool)
+    ensures o is None ==> r, o is Some ==> f.ensures((o->Some_0,), r);
